@@ -475,7 +475,12 @@ class Concatenator(Group):  # pylint: disable=too-many-public-methods
             if child not in self._children:
                 continue
 
+            if not isinstance(child, Concatenated):
+                super().remove_children([child])
+                continue
+
             self.remove_entity(child)
+            self._children.remove(child)
 
     def remove_entity(self, entity: Concatenated | ConcatenatedPropertyGroup):
         """Remove a concatenated entity."""
